@@ -35,7 +35,7 @@ type C06Case struct {
 	Ops     []C06Op `json:"ops"`
 }
 
-var c06Bodies = []string{"valid-ping", "valid-call", "valid-list", "valid-notif", "response-unsolicited", "lattice", "lattice", "lattice",
+var c06Bodies = []string{"valid-ping", "valid-call", "valid-list", "valid-notif", "valid-init", "valid-initialized", "valid-initialized", "response-unsolicited", "lattice", "lattice", "lattice",
 	"truncated", "garbage", "garbage", "invalid-utf8", "deep-array", "deep-object", "large", "nonobject", "empty", "trailing", "bom", "nul", "huge-number", "float-id", "long-method", "ws-only"}
 
 var (
@@ -80,6 +80,10 @@ func c06Body(op C06Op, stdio bool) (body []byte, malformed bool, expectID string
 		return []byte(validCall), false, "5"
 	case "valid-list":
 		return []byte(`{"jsonrpc":"2.0","id":6,"method":"tools/list"}`), false, "6"
+	case "valid-init":
+		return InitRequest("\"i2\"", "2025-03-26"), false, `"i2"`
+	case "valid-initialized":
+		return []byte(`{"jsonrpc":"2.0","method":"notifications/initialized"}`), false, ""
 	case "valid-notif":
 		return []byte(`{"jsonrpc":"2.0","method":"notifications/verif-custom","params":{"a":1}}`), false, ""
 	case "response-unsolicited":
@@ -309,18 +313,26 @@ func execC06HTTP(c C06Case) *Failure {
 			l.WaitReturned(2 * time.Second)
 		}
 	}()
-	record := func(method, url string, hdr http.Header, body []byte) (Exchange, interface{}) {
+	hung := false
+	var record func(method, url string, hdr http.Header, body []byte) (Exchange, interface{})
+	record = func(method, url string, hdr http.Header, body []byte) (Exchange, interface{}) {
 		req := httptest.NewRequest(method, "http://verif"+url, bytes.NewReader(body))
 		for k, v := range hdr {
 			req.Header[k] = v
 		}
 		rec := httptest.NewRecorder()
-		var pan interface{}
-		func() {
-			defer func() { pan = recover() }()
+		done := make(chan interface{}, 1)
+		go func() {
+			defer func() { done <- recover() }()
 			h.ServeHTTP(rec, req)
 		}()
-		return exchangeFromHTTP(rec.Code, rec.Header(), rec.Body.Bytes()), pan
+		select {
+		case pan := <-done:
+			return exchangeFromHTTP(rec.Code, rec.Header(), rec.Body.Bytes()), pan
+		case <-time.After(Bound() * 12):
+			hung = true
+			return Exchange{Status: 599}, nil
+		}
 	}
 	// a live session through the reference handshake
 	sessionID, endpoint := "", ""
@@ -369,6 +381,9 @@ func execC06HTTP(c C06Case) *Failure {
 		ex, pan := record("POST", "/mcp", hdr, body)
 		if pan != nil {
 			return Failf("C06/panic/follow-up", "ping after abuse panicked: %v", pan)
+		}
+		if hung {
+			return TimingFailf("C06/stops-serving/hang", "kind=%d: ping after the abuse did not return within %v", c.Kind, Bound()*12)
 		}
 		if ex.Status != 200 || len(ex.Frames) != 1 || !bytes.Contains(ex.Frames[0], []byte(`"result"`)) {
 			return Failf("C06/stops-serving", "kind=%d: ping after abuse: status %d body %.200q", c.Kind, ex.Status, ex.Body)
@@ -465,6 +480,9 @@ func execC06HTTP(c C06Case) *Failure {
 		if pan != nil {
 			return Failf("C06/panic/"+strings.ToLower(verb), "%s: handler panicked: %v", where, pan)
 		}
+		if hung {
+			return TimingFailf("C06/handler-hangs", "%s: the handler did not return within %v", where, Bound()*12)
+		}
 		for _, fr := range ex.Frames {
 			if _, fail := decodeFrame(fr, true); fail != nil {
 				fail.Key = "C06/" + strings.TrimPrefix(fail.Key, "C03/")
@@ -495,6 +513,9 @@ func execC06HTTP(c C06Case) *Failure {
 	}
 	if !legacy && c.Kind == 0 {
 		ex, pan := record("POST", "/mcp", http.Header{"Content-Type": {"application/json"}, "Accept": {"application/json"}}, InitRequest("9", "2025-03-26"))
+		if hung {
+			return TimingFailf("C06/stops-serving/hang", "a new client's initialize after the abuse did not return within %v", Bound()*12)
+		}
 		if pan != nil || ex.Status != 200 || ex.Header.Get("Mcp-Session-Id") == "" {
 			return Failf("C06/stops-serving", "a new client cannot initialize after the abuse: status %d panic %v", ex.Status, pan)
 		}
